@@ -4,6 +4,7 @@ import (
 	"errors"
 	"fmt"
 	"os"
+	"sync"
 	"sync/atomic"
 	"time"
 
@@ -19,6 +20,7 @@ type ChildOut struct {
 	Quiesced   bool         `json:"quiesced"` // every callback that began has ended when the last snapshot was taken
 	Settled    bool         `json:"settled"`  // no module was left in a transient status the harness expected to end
 	Notifies   int64        `json:"notifies"`
+	ParkMissed bool         `json:"park_missed,omitempty"` // the barrier of a concurrent scenario was not reached / released by its watchdog
 	HookDelays int64        `json:"hook_delays"`
 	Problem    string       `json:"problem,omitempty"` // harness-side trouble (never a verdict)
 }
@@ -67,6 +69,9 @@ func childMain(dir string) {
 			}
 		}
 	}
+	parked, release := make(chan struct{}), make(chan struct{})
+	var releaseOnce sync.Once
+	var parkMissed atomic.Bool
 	mods := map[string]*modules.Module{}
 	lastPhase := map[string]*atomic.Value{} // phase of the callback that returned last, per module
 	var hookDelays atomic.Int64
@@ -89,6 +94,16 @@ func childMain(dir string) {
 				f["seen"] = seen
 			}
 			lg.Rec("begin", name, phase, f)
+			if sc.Conc != nil && k == 1 && name == sc.Conc.Park && phase == sc.Conc.ParkPhase {
+				// barrier: tell the other clients that the pass/shutdown of client 0 is
+				// in progress and stay inside this routine until they have issued their calls
+				close(parked)
+				select {
+				case <-release:
+				case <-time.After(10 * time.Second):
+					parkMissed.Store(true)
+				}
+			}
 			if b.DelayUs > 0 {
 				time.Sleep(time.Duration(b.DelayUs) * time.Microsecond)
 			}
@@ -150,7 +165,7 @@ func childMain(dir string) {
 		mods[ms.Name] = m
 		order = append(order, ms.Name)
 	}
-	snap := func(label string) {
+	snapAs := func(who, label string) {
 		st := map[string]any{}
 		en := map[string]any{}
 		for _, n := range order {
@@ -163,7 +178,41 @@ func childMain(dir string) {
 		if sc.Mgmt {
 			f["enabled"] = en
 		}
-		lg.Rec("snap", "driver", label, f)
+		lg.Rec("snap", who, label, f)
+	}
+	snap := func(label string) { snapAs("driver", label) }
+	// runSteps executes a script of Enable/Disable/ManageModules/Shutdown calls as one
+	// client; before every ManageModules/Shutdown call `issuing` is invoked (after the
+	// call event has been recorded).
+	runSteps := func(who string, steps []Step, issuing func()) {
+		for _, s := range steps {
+			switch s.Op {
+			case "enable":
+				lg.Rec("call", who, "enable", map[string]any{"m": s.Mod})
+				ch := mods[s.Mod].Enable()
+				lg.Rec("ret", who, "enable", map[string]any{"m": s.Mod, "changed": ch})
+			case "disable":
+				lg.Rec("call", who, "disable", map[string]any{"m": s.Mod})
+				ch := mods[s.Mod].Disable()
+				lg.Rec("ret", who, "disable", map[string]any{"m": s.Mod, "changed": ch})
+			case "manage":
+				lg.Rec("call", who, "ManageModules", nil)
+				if issuing != nil {
+					issuing()
+				}
+				e := modules.ManageModules()
+				lg.Rec("ret", who, "ManageModules", map[string]any{"err": errStr(e)})
+				snapAs(who, "after-ManageModules")
+			case "shutdown":
+				lg.Rec("call", who, "Shutdown", nil)
+				if issuing != nil {
+					issuing()
+				}
+				e := modules.Shutdown()
+				lg.Rec("ret", who, "Shutdown", map[string]any{"err": errStr(e)})
+				snapAs(who, "after-Shutdown")
+			}
+		}
 	}
 	for _, n := range sc.InitEnable {
 		lg.Rec("call", "driver", "enable", map[string]any{"m": n})
@@ -177,31 +226,57 @@ func childMain(dir string) {
 	snap("after-Start")
 
 	if err == nil {
-		for _, s := range sc.Steps {
-			switch s.Op {
-			case "enable":
-				lg.Rec("call", "driver", "enable", map[string]any{"m": s.Mod})
-				ch := mods[s.Mod].Enable()
-				lg.Rec("ret", "driver", "enable", map[string]any{"m": s.Mod, "changed": ch})
-			case "disable":
-				lg.Rec("call", "driver", "disable", map[string]any{"m": s.Mod})
-				ch := mods[s.Mod].Disable()
-				lg.Rec("ret", "driver", "disable", map[string]any{"m": s.Mod, "changed": ch})
-			case "manage":
-				lg.Rec("call", "driver", "ManageModules", nil)
-				e := modules.ManageModules()
-				lg.Rec("ret", "driver", "ManageModules", map[string]any{"err": errStr(e)})
-				snap("after-ManageModules")
-			}
+		runSteps("driver", sc.Steps, nil)
+	}
+
+	// concurrent clients: client 0 starts at once and runs into the parked callback; the
+	// others start when that callback is parked, i.e. while client 0's pass / shutdown
+	// is provably in progress. The parked callback is released a few milliseconds after
+	// every other client has issued its first ManageModules/Shutdown call (on the
+	// unchanged code those calls block on the management lock until client 0 is done),
+	// or after 10 s at the latest. None of these times is part of a verdict.
+	shutdownDone := false
+	if err == nil && sc.Conc != nil && len(sc.Conc.Clients) > 0 {
+		var wg, issued sync.WaitGroup
+		issued.Add(len(sc.Conc.Clients) - 1)
+		for ci, steps := range sc.Conc.Clients {
+			wg.Add(1)
+			go func(ci int, steps []Step) {
+				defer wg.Done()
+				who := fmt.Sprintf("c%d", ci)
+				if ci == 0 {
+					runSteps(who, steps, nil)
+					return
+				}
+				select {
+				case <-parked:
+				case <-time.After(10 * time.Second):
+					parkMissed.Store(true)
+				}
+				var once sync.Once
+				runSteps(who, steps, func() { once.Do(issued.Done) })
+				once.Do(issued.Done)
+			}(ci, steps)
 		}
+		go func() {
+			select {
+			case <-parked:
+			case <-time.After(10 * time.Second):
+			}
+			issued.Wait()
+			time.Sleep(3 * time.Millisecond)
+			releaseOnce.Do(func() { close(release) })
+		}()
+		wg.Wait()
+		releaseOnce.Do(func() { close(release) })
+		shutdownDone = sc.Conc.Kind == "shutdown"
 	}
 
 	// the production path (run/main.go) calls Shutdown after a successful life and also
 	// after a failed Start
-	lg.Rec("call", "driver", "Shutdown", nil)
-	err = modules.Shutdown()
-	lg.Rec("ret", "driver", "Shutdown", map[string]any{"err": errStr(err)})
-	snap("after-Shutdown")
+	if !shutdownDone {
+		runSteps("driver", []Step{{Op: "shutdown"}}, nil)
+	}
 
 	// quiescence: every callback that began has ended and no status change the harness
 	// can expect is pending (generous watchdog; not a verdict). A start routine launched
@@ -240,6 +315,7 @@ func childMain(dir string) {
 	snap("quiescent")
 	out.Notifies = notifies.Load()
 	out.HookDelays = hookDelays.Load()
+	out.ParkMissed = parkMissed.Load()
 	out.Events = lg.Events()
 	vlib.ChildFinish(dir, out)
 }
